@@ -28,7 +28,8 @@ RequestEntries == {"jwks", "introspection", "authorizer", "contextualizer", "raw
 (* must: "accept" - a valid fixture; "reject" - certainly unusable; "open" - either is fine. *)
 MustReject == {
   "empty", "whitespace", "pem-zero-blocks", "pem-certs-only", "pem-unsupported-block",   \* no usable key
-  "json-proper-prefix", "json-empty", "json-wrong-type"                                    \* remote responses
+  "json-proper-prefix", "json-empty", "json-wrong-type",                                   \* remote responses
+  "raw-norule"                                            \* a request no rule applies to, whatever its body is like
 }
 MustAccept == {"valid"}
 
